@@ -12,11 +12,12 @@ import Cellml.Tie.GenBIso
     * `prefix_injective`, `shared_convert`, and the equality of the OBSERVATIONS with the hand model's: no tie
       hypothesis (`prefixName_tie`, `getUnit_tie`, `isDefined_tie`, `getConversionFactor_tie` are unconditional).
     * `frame`, `frame_run`, … carry `OpDom` / `RunDom`: the domain of `addUnit_tie` for every `add_unit` of the run
-      (`hsup`: no `dimensionless` mixed with dimensional units, and `hdef`: no multiplier ≤ 0 — the hand model abstains;
-      `hz`: no unknown name with total exponent zero — model and code disagree). The hypotheses of the original
-      theorems do NOT imply it; the two proved instances at the end (`genStep_differs_*`) show the generated step
-      really differs from `Iso.step` outside. For `newStore`, `add_base_unit` and definitions refused for an offset or
-      a malformed number there is no condition. -/
+      (`hsup`: no `dimensionless` mixed with dimensional units, and `hdef`: no multiplier ≤ 0 — the hand model ABSTAINS
+      there). The hypotheses of the original theorems do NOT imply it; `genStep_differs_dimensionless_mixed` shows the
+      generated step really differs from `Iso.step` outside. For `newStore`, `add_base_unit`, definitions refused for an
+      offset or a malformed number there is no condition — and, since the repair of the hand model
+      (notes/reports/MODELFIX_Units.md), none for unknown names with a total exponent of zero either: what was
+      `genStep_differs_zero_exponent` is now the equality `genStep_agrees_zero_exponent`. -/
 
 namespace Cellml.Props.C16Gen
 open Units Units.Wire Iso PMap Cellml.Gen Cellml.Tie Cellml.Tie.PUnits Cellml.Tie.PGenB
@@ -153,13 +154,40 @@ example : (genRun {} C16.demoOps).stores.map (fun p => (p.1.id, p.1.known, p.2))
 example : (genCrossFactor (genRun {} C16.demoOps) 0 "mV" 1 "mV").map cfScale = .ok [(2, 3), (5, 3)] := by
   decide +kernel
 
-/-- outside `hz`: `add_unit('x', '((nosuch)**0)')` — pint evaluates the unknown name and raises, the hand model
-    defines a dimensionless unit. The generated step leaves the store alone, `Iso.step` adds `x`. -/
-theorem genStep_differs_zero_exponent :
+/-- `add_unit('x', '((nosuch)**0)')` — pint evaluates the unknown name and raises `UndefinedUnitError`; the hand model
+    (since its repair) looks every identifier up as well: the generated step and `Iso.step` are the SAME state, in which
+    `x` is not defined. (Before the repair `Iso.step` defined `x`: `genStep_differs_zero_exponent`.) -/
+theorem genStep_agrees_zero_exponent :
     let w := run {} [.newStore none]
     let op := Op.addUnit 0 "x" [{ units := "nosuch", exponent := some "0" }]
-    (genStep w op).stores.map (·.1.known) = [[]] ∧ (step w op).stores.map (·.1.known) = [["x"]] := by
-  decide +kernel
+    genStep w op = step w op ∧ (step w op).stores.map (·.1.known) = [[]] ∧
+      errClass addErrClass (Units.addUnit builtinRegistry ⟨0, []⟩ "x" [{ units := "nosuch", exponent := some "0" }]) =
+        .error ⟨"UndefinedUnitError"⟩ :=
+  ⟨genStep_eq _ _ (by decide +kernel), by decide +kernel, by decide +kernel⟩
+
+/-- for ANY state: an operation whose definition has a value and does not mix `dimensionless` with dimensional units is
+    inside the domain, whatever names it mentions (no condition on the registry is left in `OpDom`) -/
+theorem opDom_of_value (w : World) (s : Nat) (name : String) (elems : List UnitElem)
+    (h : ∀ st ri reg, w.regOf s = some (st, ri, reg) →
+      ∃ k c d, defMeaning st.id elems = .ok (k, c, d) ∧ ¬ (norm c ≠ [] ∧ d = true)) :
+    OpDom w (.addUnit s name elems) := by
+  cases hr : w.regOf s with
+  | none => simp only [OpDom, hr]
+  | some p =>
+    obtain ⟨st, ri, reg⟩ := p
+    obtain ⟨k, c, d, hd, hs⟩ := h st ri reg hr
+    simp only [OpDom, hr, AddDom, hd]
+    exact hs
+
+/-- the order of the tests: `add_unit('metre', '((second)**x)')` is `ValueError: Cannot redefine CellML unit` in the
+    code (the name is tested before the expression is evaluated) and in the hand model (before its repair:
+    `BadDefinition`); for every name that fails a name test: `PUnits.addUnit_tie_name` -/
+example : errClass addErrClass (Units.addUnit builtinRegistry ⟨0, []⟩ "metre" [{ units := "second", exponent := some "x" }]) =
+      .error ⟨"ValueError"⟩ ∧
+    Gen.Units.addUnit (storeObj ⟨0, []⟩ builtinRegistry []) "metre" ⟨[{ units := "second", exponent := some "x" }], id⟩ =
+      .error ⟨"ValueError"⟩ := by
+  refine ⟨by decide +kernel, ?_⟩
+  exact (addUnit_tie_name ⟨0, []⟩ builtinRegistry [] "metre" _ (by decide +kernel) (Or.inl (by decide +kernel))).1
 
 /-- outside `hsup`: `dimensionless` (carrying the multiplier) times a dimensional unit — the hand model abstains
     (`AddErr.unsupported`, known finding `unit-unusable:dimensionless-times-dimensional`), the code defines the unit. -/
